@@ -95,6 +95,11 @@ var outDir = "/verif/out"
 func Discharge(o *Obligation, timeoutS int) {
 	t0 := time.Now()
 	defer func() { o.TimeS = time.Since(t0).Seconds() }()
+	if o.ExpectSat && timeoutS > 3 {
+		// vacuity guards expect `sat`, which solvers rarely report in the presence of quantifiers:
+		// keep them cheap; an undecided guard is recorded, not an alarm
+		timeoutS = 3
+	}
 	h := sha1.Sum([]byte(o.Name))
 	base := filepath.Join(outDir, "q", fmt.Sprintf("%x", h[:8]))
 	os.MkdirAll(filepath.Dir(base), 0o755)
